@@ -34,8 +34,9 @@ inductive Codec | b32 | b64 | b64u | b85 | b91 | b128 | raw
     error response); `tmo` an error equal to smux.ErrTimeout (no communicator produces it: Query wraps
     every error — kept because the code branches on it); `k` ok; `e` response carries a server error;
     `l` wrong length; `c` wrong content; `sa`/`sA` first/second pattern character changed (case swap);
-    `fs` fragment size echo differs; `p` the client panics; `unk` probe missing from the table. -/
-inductive Out | t | tmo | k | e | l | c | sa | sA | fs | p | unk
+    `fs` fragment size echo differs; `p` the client panics; `unk` probe missing from the table;
+    `x` the request cannot be encoded (name too long): Query fails without sending anything. -/
+inductive Out | t | tmo | k | e | l | c | sa | sA | fs | p | unk | x
   deriving DecidableEq, Repr, Inhabited
 
 def QT.ofIdx : Nat → Option QT
@@ -79,6 +80,7 @@ structure Cfg where
   fragHalvesEveryRound : Bool
   fragClampsStep : Bool
   rawOnSuccess : Bool
+  downAlwaysAssigned : Bool
   downMismatchIsError : Bool
 
 /-- the configuration the source has today -/
@@ -111,13 +113,14 @@ def Cfg.gen : Cfg where
   fragStopsAtZero := SA.Gen.C11.fragStopsAtZero
   fragHalvesEveryRound := SA.Gen.C11.fragHalvesEveryRound
   fragClampsStep := SA.Gen.C11.fragClampsStep
-  rawOnSuccess := SA.Gen.C11.rawOnSuccess && SA.Gen.C11.downAlwaysAssigned
+  rawOnSuccess := SA.Gen.C11.rawOnSuccess
+  downAlwaysAssigned := SA.Gen.C11.downAlwaysAssigned
   downMismatchIsError := SA.Gen.C11.downMismatchIsError
 
 /-- the three shapes as they were before the repairs (used by the witnesses) -/
 def Cfg.asFound : Cfg :=
   { Cfg.gen with fragStopsAtZero := false, fragHalvesEveryRound := false, fragClampsStep := false,
-                 rawOnSuccess := false, downMismatchIsError := false }
+                 rawOnSuccess := false, downAlwaysAssigned := false, downMismatchIsError := false }
 
 /-! ### probes and the oracle -/
 
@@ -153,12 +156,13 @@ structure St where
 def St.probe (st : St) (c : Cmd) : Probe := { cmd := c, q := st.q, up := st.up, down := st.down, edns := st.edns }
 
 /-- `err != nil` after Query -/
-def Out.isErr (o : Out) : Bool := o == .t || o == .tmo || o == .p || o == .unk
+def Out.isErr (o : Out) : Bool := o == .t || o == .tmo || o == .p || o == .unk || o == .x
 
 /-- `for i := 0; i < n; i++ { o := probe; if cont o { continue }; return o }` over a static path:
-    `none` = fell through after n identical exchanges. -/
+    `none` = fell through after n identical exchanges.  A request that cannot be encoded costs no query. -/
 def retry (n : Nat) (O : Oracle) (pr : Probe) (cont : Out → Bool) : Option Out × List Probe :=
   if n = 0 then (none, [])
+  else if O pr = .x then (if cont .x then none else some .x, [])
   else if cont (O pr) then (none, List.replicate n pr) else (some (O pr), [pr])
 
 /-! ### AutoDetectQueryType -/
@@ -261,15 +265,17 @@ def downLoop (O : Oracle) (cfg : Cfg) (st : St) : List Codec → Codec → Codec
       if d = .b64 then let r := downLoop O cfg st rest a; (r.1, tr ++ r.2)
       else (a, tr)
 
-/-- AutodetectEncodingDowntream; `none` = no encoder was assigned (only in the shape as found) -/
+/-- AutodetectEncodingDowntream; `none` = no encoder was assigned (only when the function does not end
+    with the unconditional assignment: the shape as found).  Raw is chosen when the outcome of its test
+    equals the polarity fact (`err == nil` in the repaired code, `err != nil` as found). -/
 def downDetect (O : Oracle) (cfg : Cfg) (st : St) : Option Codec × List Probe :=
   if st.q ∈ cfg.downRawTypes then (some .raw, [])
   else
     let r := downLoop O cfg st cfg.downOrder .b32
     if r.1 = .b128 ∧ st.q = .txt then
       let t := downTest O cfg st .raw
-      if cfg.rawOnSuccess then (some (if t.1 then .raw else r.1), r.2 ++ t.2)
-      else (if t.1 then none else some .raw, r.2 ++ t.2)
+      if cfg.downAlwaysAssigned then (some (if t.1 = cfg.rawOnSuccess then .raw else r.1), r.2 ++ t.2)
+      else (if t.1 = cfg.rawOnSuccess then some .raw else none, r.2 ++ t.2)
     else (some r.1, r.2)
 
 def setDownPhase (O : Oracle) (cfg : Cfg) (st : St) (d : Codec) : Codec × List Probe :=
@@ -466,7 +472,7 @@ def Probe.key (p : Probe) : String :=
 
 def Out.ofString : String → Out
   | "t" => .t | "k" => .k | "e" => .e | "l" => .l | "c" => .c | "sa" => .sa | "sA" => .sA
-  | "fs" => .fs | "p" => .p | "T" => .tmo | _ => .unk
+  | "fs" => .fs | "p" => .p | "T" => .tmo | "x" => .x | _ => .unk
 
 def parseOracle (s : String) : List (String × Out) :=
   if s = "-" then []
@@ -475,12 +481,20 @@ def parseOracle (s : String) : List (String × Out) :=
     | [k, v] => some (k, Out.ofString v)
     | _ => none)
 
-def tableOracle (tbl : List (String × Out)) : Oracle := fun p => (tbl.lookup p.key).getD .unk
+/-- whether an upstream pattern fits into a query name depends only on the domain: key `zx.<codec>#<i>` -/
+def tableOracle (tbl : List (String × Out)) : Oracle := fun p =>
+  match p.cmd with
+  | .z c i =>
+    match tbl.lookup s!"zx.{c.name}#{i}" with
+    | some o => o
+    | none => (tbl.lookup p.key).getD .unk
+  | _ => (tbl.lookup p.key).getD .unk
 
 def domLenOf : String → Option Nat
   | "s" => some 4
   | "m" => some 11
   | "l" => some 81
+  | "x" => some 172
   | _ => none
 
 /-- the harness's hard cap on queries during the handshake -/
